@@ -2279,6 +2279,12 @@ def check_c09(prog, rep, tier, cfg):
     # not leak from an empty line onto the tokens collected next (shared with C07.j)
     import text as _text
     _text.finished_line_type_does_not_survive(prog, rep, "C09.i")
+    # C09.l — the line breaks of the input reach the output only in front of ignored tokens: the emission step reads a token's original
+    # whitespace only under is_ignored() (shared with C06.e) — a "copy it if it already looks right" path compares lengths, not bytes
+    if not getattr(rep, "_c09_alias_c06", False):
+        ar6 = AliasReport(rep, [("C06.e", r".", "C09.l")])
+        ar6._c09_alias_c06 = True
+        check_c06(prog, ar6, tier, cfg)
     # C09.k — a token that is marked as verbatim is written with the line breaks of the input in front of it, so only what lies inside
     # an open `pasfmt off` region is marked: one step of the toggle scan marks an On comment iff a region was open (shared with C07.f)
     _text.check_c07(prog, AliasReport(rep, [("C07.f", r"^toggle:transition-table|^toggle:anchor|^anchor:FormattingToggler", "C09.k")]), tier, cfg)
